@@ -478,4 +478,532 @@ Section Out.
       apply (Oinv_change st p nil_route _ HI HR' HC').
       exists []. fold loc. rewrite Hra. cbn. repeat split; try constructor; intros x [].
   Qed.
+
+  (* ---------------------------------------------------------------- the ghost list of seen routes only grows *)
+
+  Definition seen_ext (st st' : pst) : Prop := exists l, ps_seen P st' = ps_seen P st ++ l.
+
+  Lemma seen_ext_refl : forall st, seen_ext st st.
+  Proof. intros st. exists []. now rewrite app_nil_r. Qed.
+
+  Lemma seen_ext_trans : forall a b c, seen_ext a b -> seen_ext b c -> seen_ext a c.
+  Proof. intros a b c [l1 E1] [l2 E2]. exists (l1 ++ l2). now rewrite E2, E1, app_assoc. Qed.
+
+  Lemma seen_ext_nodup : forall st st', seen_ext st st' -> Forall (@NoDup path) (ps_seen P st') -> Forall (@NoDup path) (ps_seen P st).
+  Proof. intros st st' [l E] H. rewrite E in H. apply Forall_app in H. tauto. Qed.
+
+  Lemma seen_ext_loc_op : forall st o, seen_ext st (loc_op st o).
+  Proof.
+    intros st o. unfold Pipeline.loc_op. destruct (lstep (ps_loc P st) o) as [loc' cbs|].
+    - destruct (op_prefixes loc' o) as [ps only]. unfold seen_ext. cbn [ps_seen]. eexists. reflexivity.
+    - exists []. cbn [ps_seen]. now rewrite app_nil_r.
+  Qed.
+
+  Notation ev_op := (PipelineProofs.ev_op P apply sel tagf cfgs).
+
+  Lemma seen_ext_ev_op : forall c st e, seen_ext st (ev_op c st e).
+  Proof. intros c st e. unfold PipelineProofs.ev_op. destruct (loc_of_event P c e); [apply seen_ext_loc_op|apply seen_ext_refl]. Qed.
+
+  Lemma seen_ext_ev_fold : forall c evs st, seen_ext st (fold_left (ev_op c) evs st).
+  Proof.
+    intros c evs. induction evs as [|e evs IH]; intros st; cbn [fold_left]; [apply seen_ext_refl|].
+    eapply seen_ext_trans; [apply seen_ext_ev_op|apply IH].
+  Qed.
+
+  Lemma seen_ext_in_op : forall k st o, seen_ext st (in_op k st o).
+  Proof.
+    intros k st o. unfold Pipeline.in_op. destruct (nth_error cfgs k) as [c|]; [|apply seen_ext_refl].
+    destruct (nth_error (ps_sess P st) k) as [s|]; [|apply seen_ext_refl].
+    eapply seen_ext_trans; [|apply seen_ext_ev_fold]. exists []. cbn [with_sess ps_seen]. now rewrite app_nil_r.
+  Qed.
+
+  Lemma seen_ext_in_ops : forall k ops st, seen_ext st (fold_left (in_op k) ops st).
+  Proof.
+    intros k ops. induction ops as [|o ops IH]; intros st; cbn [fold_left]; [apply seen_ext_refl|].
+    eapply seen_ext_trans; [apply seen_ext_in_op|apply IH].
+  Qed.
+
+  Lemma seen_ext_broadcast : forall js ops st, seen_ext st (vrf_broadcast P apply sel tagf cfgs js ops st).
+  Proof.
+    intros js ops. unfold vrf_broadcast. induction js as [|j js IH]; intros st; cbn [fold_left]; [apply seen_ext_refl|].
+    eapply seen_ext_trans; [apply seen_ext_in_ops|apply IH].
+  Qed.
+
+  (* ---------------------------------------------------------------- calls on an Adj-RIB-In *)
+
+  Lemma Oinv_ev_fold : forall c evs st, Forall plain evs -> Oinv st ->
+    Forall (@NoDup path) (ps_seen P (fold_left (ev_op c) evs st)) -> Oinv (fold_left (ev_op c) evs st).
+  Proof.
+    intros c evs. induction evs as [|e evs IH]; intros st PL HI HN; cbn [fold_left] in *; [exact HI|].
+    inversion PL as [|? ? Pe PL']; subst.
+    assert (HN1 : Forall (@NoDup path) (ps_seen P (ev_op c st e))) by (eapply seen_ext_nodup; [apply seen_ext_ev_fold|exact HN]).
+    apply IH; [exact PL'| |exact HN].
+    unfold PipelineProofs.ev_op in *.
+    destruct e as [k' p0 q|k' p0 q|k' p0 q|k' p0 o n|k']; cbn [loc_of_event] in *; try contradiction; try exact HI;
+      destruct (N.eqb k' 0); try exact HI.
+    - now apply Oinv_loc_add.
+    - now apply Oinv_loc_add.
+    - now apply Oinv_loc_remove.
+  Qed.
+
+  Lemma Osess_ext : forall loc j c s s',
+    ss_up P s' = ss_up P s -> ss_out P s' = ss_out P s -> ss_hist P s' = ss_hist P s -> Osess loc j c s -> Osess loc j c s'.
+  Proof.
+    intros loc j c s s' E1 E2 E3 H. unfold Osess, feedof in *. rewrite E1, E2, E3. exact H.
+  Qed.
+
+  Lemma Oinv_in_op : forall k st o, not_replace o -> Oinv st ->
+    Forall (@NoDup path) (ps_seen P (in_op k st o)) -> Oinv (in_op k st o).
+  Proof.
+    intros k st o NR HI HN. unfold Pipeline.in_op in *.
+    destruct (nth_error cfgs k) as [c|] eqn:Hc; [|exact HI].
+    destruct (nth_error (ps_sess P st) k) as [s|] eqn:Hs; [|exact HI].
+    destruct (Ext_step o (ss_in P s)) as [new [HLog [HPl _]]].
+    rewrite HLog, gained_app in *.
+    apply Oinv_ev_fold; [apply Forall_rev; now apply HPl| |exact HN].
+    destruct HI as [HL HR HS HO]. constructor; cbn [with_sess ps_sess ps_loc ps_seen].
+    - now rewrite upd_nth_length.
+    - exact HR.
+    - exact HS.
+    - intros j cj s' Hcj Hs'. destruct (Nat.eq_dec j k) as [->|NE].
+      + rewrite (nth_error_upd_same _ k _ _ s Hs) in Hs'. inversion Hs'; subst s'.
+        eapply Osess_ext; [| | |apply (HO k cj s Hcj Hs)]; reflexivity.
+      + rewrite nth_error_upd_other in Hs' by assumption. now apply HO.
+  Qed.
+
+  Lemma Oinv_in_ops : forall k ops st, Forall vrf_op ops -> Oinv st ->
+    Forall (@NoDup path) (ps_seen P (fold_left (in_op k) ops st)) -> Oinv (fold_left (in_op k) ops st).
+  Proof.
+    intros k ops. induction ops as [|o ops IH]; intros st VO HI HN; cbn [fold_left] in *; [exact HI|].
+    inversion VO; subst. apply IH; [assumption| |exact HN].
+    apply Oinv_in_op; [destruct o; try contradiction; exact I|exact HI|].
+    eapply seen_ext_nodup; [apply seen_ext_in_ops|exact HN].
+  Qed.
+
+  Lemma Oinv_broadcast : forall js ops st, Forall vrf_op ops -> Oinv st ->
+    Forall (@NoDup path) (ps_seen P (vrf_broadcast P apply sel tagf cfgs js ops st)) ->
+    Oinv (vrf_broadcast P apply sel tagf cfgs js ops st).
+  Proof.
+    intros js ops. unfold vrf_broadcast. induction js as [|j js IH]; intros st VO HI HN; cbn [fold_left] in *; [exact HI|].
+    apply IH; [assumption| |exact HN].
+    apply Oinv_in_ops; [assumption|exact HI|].
+    eapply seen_ext_nodup; [|exact HN].
+    clear. generalize (fold_left (in_op j) ops st). induction js as [|j' js IH]; intros st'; cbn [fold_left]; [apply seen_ext_refl|].
+    eapply seen_ext_trans; [apply seen_ext_in_ops|apply IH].
+  Qed.
+
+  (* ---------------------------------------------------------------- registration: initial dump *)
+
+  Lemma lv_diff_nil_l : forall l, LocView.paths_diff [] l = [].
+  Proof. reflexivity. Qed.
+
+  Lemma feed_dump : forall c (vis : route path -> list path) (rs : list (pfx * route path)) v a,
+    NoDup (map fst rs) -> (forall p, In p (map fst rs) -> LocView.view_get (N.of_nat p) v = []) ->
+    let r := fold_left (LocView.feed_step P apply (sc_sess P c))
+                       (map (fun pr : pfx * route path => (N.of_nat (fst pr), vis (snd pr))) rs) (v, a) in
+    snd r = fold_left (AdjRIBOut.step P apply (sc_sess P c))
+                      (flat_map (fun pr : pfx * route path => map (AdjRIBOut.OAdd (N.of_nat (fst pr))) (vis (snd pr))) rs) a /\
+    (forall p, LocView.view_get (N.of_nat p) (fst r) =
+               match lookup p rs with Some x => vis x | None => LocView.view_get (N.of_nat p) v end).
+  Proof.
+    intros c vis rs. induction rs as [|[p0 r0] rs IH]; intros v a ND HV; cbn [map fold_left flat_map fst snd].
+    - split; [reflexivity|]. intros p. reflexivity.
+    - inversion ND as [|x l Hn ND']; subst.
+      cbn [LocView.feed_step]. rewrite (HV p0) by (now left).
+      unfold LocView.change_ops. rewrite lv_diff_nil_l, lv_diff_nil_r. cbn [map app].
+      specialize (IH (LocView.view_set (N.of_nat p0) (vis r0) v)
+                     (fold_left (AdjRIBOut.step P apply (sc_sess P c)) (map (AdjRIBOut.OAdd (N.of_nat p0)) (vis r0)) a) ND').
+      destruct IH as [I1 I2].
+      { intros p Hp. rewrite ExportViewC.view_get_set_other.
+        - apply HV. now right.
+        - apply of_nat_neq. intros ->. contradiction. }
+      cbv zeta in I1, I2. split.
+      + rewrite I1. now rewrite fold_left_app.
+      + intros p. rewrite I2. cbn [lookup]. destruct (p0 =? p) eqn:E.
+        * apply Nat.eqb_eq in E. subst p.
+          assert (HL : lookup p0 rs = None) by (apply LocRIBClientsProofs.lookup_None_keys; exact Hn).
+          rewrite HL. apply ExportViewC.view_get_set_same.
+        * destruct (lookup p rs); [reflexivity|]. apply ExportViewC.view_get_set_other. apply of_nat_neq.
+          intros ->. now rewrite Nat.eqb_refl in E.
+  Qed.
+
+  Lemma visible_same_routes : forall o (loc loc' : state path) p, routes loc' = routes loc -> visible o loc' p = visible o loc p.
+  Proof. intros o loc loc' p E. unfold visible, route_at. now rewrite E. Qed.
+
+  Lemma vals_same_routes : forall (loc loc' : state path) p, routes loc' = routes loc -> vals loc' p = vals loc p.
+  Proof. intros loc loc' p E. unfold vals, route_at. now rewrite E. Qed.
+
+  Lemma Osess_same_routes : forall loc loc' j c s, routes loc' = routes loc ->
+    lookup j (clients loc') = lookup j (clients loc) -> Osess loc j c s -> Osess loc' j c s.
+  Proof.
+    intros loc loc' j c s ER EC H. unfold Osess in *. rewrite EC. destruct (lookup j (clients loc)) as [o|]; [|exact H].
+    destruct H as [H1 [H2 [H3 H4]]]. repeat split; try assumption. intros p. rewrite H4. symmetry. now apply visible_same_routes.
+  Qed.
+
+  Lemma Oinv_register : forall st k c s,
+    Oinv st -> nth_error cfgs k = Some c -> nth_error (ps_sess P st) k = Some s ->
+    lookup k (clients (ps_loc P st)) = None -> ss_up P s = true ->
+    ss_out P s = AdjRIBOut.init P (sc_exp P c) -> ss_hist P s = [] ->
+    Oinv (loc_op st (ORegister k (sc_opts P c))).
+  Proof.
+    intros st k c s HI Hc Hs HLk Hu Hout Hh.
+    destruct (o_rinv st HI) as [tr [HR HC]].
+    set (loc := ps_loc P st) in *. set (o := sc_opts P c).
+    destruct (LocRIBClientsProofs.step_inv path AdjRIBOut.path_compare AdjRIBOut.path_equal sel Hsel loc tr (ORegister k o) HR HC)
+      as [loc' [cbs [Hs' [HR' HC']]]].
+    assert (HD : dump_routes path k o (routes loc) =
+                 Some (flat_map (fun pr : pfx * route path => map (CbDump k (fst pr)) (LocRIBClientsSpec.want path o (snd pr))) (routes loc))).
+    { apply (LocRIBClientsProofs.dump_routes_spec path (clock loc)). apply LocRIBClientsProofs.RInv_routes_good. exact HR. }
+    cbn [step] in Hs'. rewrite HD in Hs'. inversion Hs'; subst loc' cbs. clear Hs'.
+    set (dump := flat_map (fun pr : pfx * route path => map (CbDump k (fst pr)) (LocRIBClientsSpec.want path o (snd pr))) (routes loc)) in *.
+    set (loc' := mkState (routes loc) (put k o (clients loc)) (S (clock loc))) in *.
+    assert (EQ : loc_op st (ORegister k o) =
+                 mkPst P (note_views P loc' (map fst (routes loc)) (Some k) (fold_left deliver (dump ++ [CbEndOfRIB k]) (ps_sess P st)))
+                       loc' (ps_panic P st) (ps_seen P st ++ [])).
+    { unfold Pipeline.loc_op. fold loc. cbn [step]. rewrite HD. reflexivity. }
+    rewrite EQ. clear EQ.
+    assert (CID : forall b, In b (dump ++ [CbEndOfRIB k]) -> LocRIBClientsSpec.cb_cid path b = k).
+    { intros b Hb. apply in_app_or in Hb. destruct Hb as [Hb|[<-|[]]]; [|reflexivity].
+      eapply LocRIBClientsProofs.dump_cid; eassumption. }
+    destruct HI as [HL _ HS HO].
+    constructor; cbn [ps_sess ps_loc ps_seen].
+    - now rewrite note_views_length, deliver_fold_length.
+    - eauto.
+    - intros p. rewrite app_nil_r. rewrite (vals_same_routes loc loc' p eq_refl). apply HS.
+    - intros j cj s' Hcj Hs'. rewrite note_views_nth, (deliver_fold_nth j cj _ _ Hcj) in Hs'.
+      destruct (nth_error (ps_sess P st) j) as [s0|] eqn:Hs0; [|discriminate]. cbn [option_map] in Hs'.
+      assert (ELK : lookup j (clients loc') = if k =? j then Some o else lookup j (clients loc)).
+      { unfold loc'. cbn [clients]. apply LocRIBClientsProofs.lookup_put. }
+      destruct (Nat.eq_dec j k) as [->|NE].
+      + (* the registering session *)
+        rewrite Hc in Hcj. inversion Hcj; subst cj. rewrite Hs in Hs0. inversion Hs0; subst s0. clear Hcj Hs0.
+        rewrite ELK, Nat.eqb_refl in Hs'. inversion Hs'; subst s'. clear Hs'.
+        unfold Osess. rewrite ELK, Nat.eqb_refl.
+        set (s1 := fold_left (cb_to k c) (dump ++ [CbEndOfRIB k]) s).
+        destruct (cb_to_fold_frame k c (dump ++ [CbEndOfRIB k]) s) as [Fu Fh]. fold s1 in Fu, Fh.
+        cbn [set_hist ss_up ss_out ss_hist]. split; [reflexivity|]. split; [congruence|].
+        unfold feedof. cbn [set_hist ss_hist]. rewrite Fh, Hh. cbn [app].
+        assert (EM : map (fun p : nat => (N.of_nat p, visible o loc' p)) (map fst (routes loc)) =
+                     map (fun pr : pfx * route path => (N.of_nat (fst pr), map snd (limit_slice path o (snd pr)))) (routes loc)).
+        { rewrite map_map. apply map_ext_in. intros [p r] Hin. cbn [fst snd]. f_equal.
+          rewrite visible_route. unfold route_at, loc'. cbn [routes].
+          rewrite (LocRIBClientsProofs.In_lookup _ (routes loc) p r); [reflexivity| |exact Hin]. now destruct HR. }
+        rewrite EM. unfold LocView.feed.
+        destruct (feed_dump c (fun r => map snd (limit_slice path o r)) (routes loc) [] (AdjRIBOut.init P (sc_exp P c))) as [F1 F2].
+        { now destruct HR. }
+        { intros p _. reflexivity. }
+        cbv zeta beta in F1, F2. split.
+        * unfold s1. rewrite cb_to_out, Hout. etransitivity; [|symmetry; exact F1]. f_equal.
+          rewrite ops_of_app. cbn [ops_of flat_map]. rewrite app_nil_r. unfold dump. rewrite ops_of_flat.
+          apply flat_map_ext. intros [p r]. cbn [fst snd]. rewrite ops_of_map_dump, Nat.eqb_refl.
+          now rewrite <- LocRIBClientsProofs.limit_slice_want.
+        * intros p. etransitivity; [exact (F2 p)|]. rewrite visible_route. unfold route_at, loc'. cbn [routes].
+          destruct (lookup p (routes loc)); [reflexivity|]. cbn. now rewrite limit_slice_nil.
+      + assert (EK : (k =? j) = false) by (apply Nat.eqb_neq; congruence).
+        assert (EJ : (j =? k) = false) by (apply Nat.eqb_neq; congruence).
+        rewrite cb_to_fold_other in Hs' by (intros b Hb; rewrite (CID b Hb); congruence).
+        assert (E' : s' = s0).
+        { destruct (lookup j (clients loc')); [rewrite EJ in Hs'|]; now inversion Hs'. }
+        subst s'. apply (Osess_same_routes loc loc'); [reflexivity|now rewrite ELK, EK|now apply HO].
+  Qed.
+
+  (* unregistration, then the session is marked down *)
+  Lemma Oinv_unregister_down : forall st k,
+    Oinv st ->
+    Oinv (with_sess P (loc_op st (OUnregister k))
+                    (upd_nth k (fun s0 => set_up P s0 false) (ps_sess P (loc_op st (OUnregister k))))).
+  Proof.
+    intros st k HI.
+    destruct (o_rinv st HI) as [tr [HR HC]].
+    set (loc := ps_loc P st) in *.
+    destruct (LocRIBClientsProofs.step_inv path AdjRIBOut.path_compare AdjRIBOut.path_equal sel Hsel loc tr (OUnregister k) HR HC)
+      as [loc' [cbs [Hs' [HR' HC']]]].
+    cbn [step] in Hs'. inversion Hs'; subst loc' cbs. clear Hs'.
+    set (loc' := mkState (routes loc) (del k (clients loc)) (S (clock loc))) in *.
+    assert (EQ : loc_op st (OUnregister k) =
+                 mkPst P (note_views P loc' [] None (ps_sess P st)) loc' (ps_panic P st) (ps_seen P st ++ [])).
+    { reflexivity. }
+    rewrite EQ. clear EQ. destruct HI as [HL _ HS HO].
+    constructor; cbn [with_sess ps_sess ps_loc ps_seen].
+    - now rewrite upd_nth_length, note_views_length.
+    - eauto.
+    - intros p. rewrite app_nil_r, (vals_same_routes loc loc' p eq_refl). apply HS.
+    - intros j cj s' Hcj Hs'.
+      assert (ELK : lookup j (clients loc') = if k =? j then None else lookup j (clients loc)).
+      { unfold loc'. cbn [clients]. apply LocRIBClientsProofs.lookup_del. }
+      destruct (Nat.eq_dec j k) as [->|NE].
+      + unfold Osess. rewrite ELK, Nat.eqb_refl. left.
+        destruct (nth_error (note_views P loc' [] None (ps_sess P st)) k) as [x|] eqn:Ex.
+        * rewrite (nth_error_upd_same _ k _ _ x Ex) in Hs'. inversion Hs'. reflexivity.
+        * rewrite upd_nth_none in Hs' by assumption. congruence.
+      + rewrite nth_error_upd_other in Hs' by assumption. rewrite note_views_nth in Hs'.
+        destruct (nth_error (ps_sess P st) j) as [s0|] eqn:Hs0; [|discriminate]. cbn [option_map map] in Hs'.
+        assert (EK : (k =? j) = false) by (apply Nat.eqb_neq; congruence).
+        apply (Osess_same_routes loc loc'); [reflexivity|now rewrite ELK, EK|].
+        assert (OS : Osess loc j cj s0) by (now apply HO).
+        destruct (lookup j (clients loc')); inversion Hs'; subst s'; [|exact OS].
+        eapply Osess_ext; [| | |exact OS]; cbn [set_hist ss_up ss_out ss_hist]; try reflexivity. apply app_nil_r.
+  Qed.
+
+  Lemma clients_register : forall st k o, Oinv st ->
+    clients (ps_loc P (loc_op st (ORegister k o))) = put k o (clients (ps_loc P st)).
+  Proof.
+    intros st k o HI. destruct (o_rinv st HI) as [tr [HR HC]].
+    assert (HD : dump_routes path k o (routes (ps_loc P st)) =
+                 Some (flat_map (fun pr : pfx * route path => map (CbDump k (fst pr)) (LocRIBClientsSpec.want path o (snd pr))) (routes (ps_loc P st)))).
+    { apply (LocRIBClientsProofs.dump_routes_spec path (clock (ps_loc P st))). apply LocRIBClientsProofs.RInv_routes_good. exact HR. }
+    unfold Pipeline.loc_op. cbn [step]. rewrite HD. reflexivity.
+  Qed.
+
+  Lemma ups_loc_op : forall st o, map (ss_up P) (ps_sess P (loc_op st o)) = map (ss_up P) (ps_sess P st).
+  Proof.
+    intros st o.
+    assert (G : forall ss : list sst, map (ss_up P) ss = map (fun t : bool * AdjRIBIn.st * list AdjRIBIn.op => fst (fst t)) (map (inpart P) ss))
+      by (intros; rewrite map_map; reflexivity).
+    rewrite !G. now rewrite (loc_op_inpart P apply sel tagf cfgs).
+  Qed.
+
+  (* ---------------------------------------------------------------- frames: who is registered, who is up *)
+
+  Lemma clients_loc_change : forall st o,
+    match o with OAdd _ _ | ORemove _ _ => True | _ => False end ->
+    clients (ps_loc P (loc_op st o)) = clients (ps_loc P st).
+  Proof.
+    intros st o Ho. destruct o as [p v|p v|? ? ?|? ?|?|?]; try contradiction.
+    - rewrite loc_op_add_eq. reflexivity.
+    - destruct (lookup p (routes (ps_loc P st))) as [oldr|] eqn:EL.
+      + rewrite (loc_op_remove_some st p v oldr EL). reflexivity.
+      + rewrite (loc_op_remove_none st p v EL). reflexivity.
+  Qed.
+
+  Lemma clients_ev_fold : forall c evs st, Forall plain evs ->
+    clients (ps_loc P (fold_left (ev_op c) evs st)) = clients (ps_loc P st).
+  Proof.
+    intros c evs. induction evs as [|e evs IH]; intros st PL; cbn [fold_left]; [reflexivity|].
+    inversion PL as [|? ? Pe PL']; subst. rewrite IH by assumption.
+    unfold PipelineProofs.ev_op.
+    destruct e as [k' p0 q|k' p0 q|k' p0 q|k' p0 o n|k']; cbn [loc_of_event]; try contradiction; try reflexivity;
+      destruct (N.eqb k' 0); try reflexivity; now apply clients_loc_change.
+  Qed.
+
+  Lemma clients_in_op : forall k st o, not_replace o -> clients (ps_loc P (in_op k st o)) = clients (ps_loc P st).
+  Proof.
+    intros k st o NR. unfold Pipeline.in_op.
+    destruct (nth_error cfgs k) as [c|]; [|reflexivity].
+    destruct (nth_error (ps_sess P st) k) as [s|]; [|reflexivity].
+    destruct (Ext_step o (ss_in P s)) as [new [HLog [HPl _]]].
+    rewrite HLog, gained_app. fold (ev_op c). rewrite clients_ev_fold; [reflexivity|]. apply Forall_rev. now apply HPl.
+  Qed.
+
+  Lemma clients_broadcast : forall js ops st, Forall vrf_op ops ->
+    clients (ps_loc P (vrf_broadcast P apply sel tagf cfgs js ops st)) = clients (ps_loc P st).
+  Proof.
+    intros js ops. unfold vrf_broadcast. induction js as [|j js IH]; intros st VO; cbn [fold_left]; [reflexivity|].
+    rewrite IH by assumption. clear IH. revert st. induction VO as [|o ops Ho VO IH]; intros st; cbn [fold_left]; [reflexivity|].
+    rewrite IH. apply clients_in_op. destruct o; try contradiction; exact I.
+  Qed.
+
+  Definition ups (st : pst) : list bool := map (ss_up P) (ps_sess P st).
+
+  Lemma ups_inpart : forall st, ups st = map (fun t : bool * AdjRIBIn.st * list AdjRIBIn.op => fst (fst t)) (map (inpart P) (ps_sess P st)).
+  Proof. intros. unfold ups. rewrite map_map. reflexivity. Qed.
+
+  Lemma ups_in_op : forall k st o, ups (in_op k st o) = ups st.
+  Proof.
+    intros k st o. rewrite !ups_inpart.
+    destruct (in_op_inparts P apply sel tagf cfgs k o st) as [E|E]; rewrite E; [reflexivity|].
+    apply map_upd_nth. intros x _. reflexivity.
+  Qed.
+
+  Lemma ups_broadcast : forall js ops st, ups (vrf_broadcast P apply sel tagf cfgs js ops st) = ups st.
+  Proof.
+    intros js ops. unfold vrf_broadcast. induction js as [|j js IH]; intros st; cbn [fold_left]; [reflexivity|].
+    rewrite IH. clear IH. revert st. induction ops as [|o ops IH]; intros st; cbn [fold_left]; [reflexivity|].
+    rewrite IH. apply ups_in_op.
+  Qed.
+
+  Lemma ups_nth : forall st k s, nth_error (ps_sess P st) k = Some s -> nth_error (ups st) k = Some (ss_up P s).
+  Proof. intros. unfold ups. now apply map_nth_error. Qed.
+
+  Lemma ups_nth_inv : forall st k b, nth_error (ups st) k = Some b -> exists s, nth_error (ps_sess P st) k = Some s /\ ss_up P s = b.
+  Proof.
+    intros st k b H. unfold ups in H. rewrite nth_error_map in H.
+    destruct (nth_error (ps_sess P st) k) as [s|]; [|discriminate]. inversion H. eauto.
+  Qed.
+
+  (* ---------------------------------------------------------------- every event *)
+
+  Lemma Oinv_us_event : forall st k l, Oinv st -> Oinv (us_event P cfgs k l st).
+  Proof.
+    intros st k l HI. unfold us_event. destruct (is_up P st k); [|exact HI].
+    destruct HI as [HL HR HS HO]. constructor; cbn [with_sess ps_sess ps_loc ps_seen]; try assumption.
+    - unfold with_cfg. destruct (nth_error cfgs k); [now rewrite upd_nth_length|assumption].
+    - intros j c s' Hc Hs'. rewrite (with_cfg_nth k j _ _ c Hc) in Hs'.
+      destruct (nth_error (ps_sess P st) j) as [s0|] eqn:Hs0; [|discriminate]. cbn [option_map] in Hs'.
+      inversion Hs'; subst s'. destruct (k =? j); [|now apply HO].
+      eapply Osess_ext; [| | |apply (HO j c s0 Hc Hs0)]; reflexivity.
+  Qed.
+
+  (* a session that is up is registered at the Loc-RIB (between events) *)
+  Definition Reg (st : pst) : Prop :=
+    forall j, nth_error (ups st) j = Some true -> lookup j (clients (ps_loc P st)) <> None.
+
+  Lemma ups_us_event : forall st k l, ups (us_event P cfgs k l st) = ups st.
+  Proof.
+    intros st k l. unfold us_event. destruct (is_up P st k); [|reflexivity]. rewrite !ups_inpart. cbn [with_sess ps_sess].
+    f_equal. apply (with_cfg_inpart P cfgs). intros. reflexivity.
+  Qed.
+
+  Lemma Oinv_step : forall st ev, Oinv st -> Forall (@NoDup path) (ps_seen P (pstep st ev)) ->
+    Oinv (pstep st ev) /\ (Reg st -> Reg (pstep st ev)).
+  Proof.
+    intros st ev HI HN. destruct ev as [k|k|k p q|k p i|k key|k]; cbn [Pipeline.step] in *.
+    - (* EUp *)
+      destruct (nth_error cfgs k) as [c|] eqn:Hc; [|now split].
+      destruct (is_up P st k) eqn:Hup; [now split|].
+      destruct (nth_error (ps_sess P st) k) as [s|] eqn:Hs.
+      2:{ exfalso. apply nth_error_None in Hs. rewrite (o_len st HI) in Hs.
+          assert (k < length cfgs) by (apply nth_error_Some; congruence). lia. }
+      assert (Hdown : ss_up P s = false) by (unfold is_up in Hup; now rewrite Hs in Hup).
+      set (pre := flat_map (cfg_ops P cfgs (vrf_add P)) (others_up P cfgs st k)) in *.
+      set (fresh := mkSst P true (fold_left AdjRIBIn.step pre (AdjRIBIn.init (sc_sa P c) (sc_pol P c)))
+                          (AdjRIBOut.init P (sc_exp P c)) UpdateSender.init pre [] []) in *.
+      set (st1 := with_sess P st (upd_nth k (fun _ => fresh) (ps_sess P st))) in *.
+      set (st2 := vrf_broadcast P apply sel tagf cfgs (others_up P cfgs st k ++ [k]) (vrf_add P c) st1) in *.
+      set (st3 := in_op k st2 (AdjRIBIn.Register 0%N)) in *.
+      assert (LK : lookup k (clients (ps_loc P st)) = None).
+      { pose proof (o_sess st HI k c s Hc Hs) as OS. unfold Osess in OS.
+        destruct (lookup k (clients (ps_loc P st))); [|reflexivity]. destruct OS as [_ [Hu _]]. congruence. }
+      assert (O1 : Oinv st1).
+      { destruct HI as [HL HR HS HO]. unfold st1. constructor; cbn [with_sess ps_sess ps_loc ps_seen]; try assumption.
+        - now rewrite upd_nth_length.
+        - intros j cj s' Hcj Hs'. destruct (Nat.eq_dec j k) as [->|NE].
+          + rewrite (nth_error_upd_same _ k _ _ s Hs) in Hs'. inversion Hs'; subst s'.
+            rewrite Hc in Hcj. inversion Hcj; subst cj. unfold Osess. rewrite LK. right. split; reflexivity.
+          + rewrite nth_error_upd_other in Hs' by assumption. now apply HO. }
+      assert (N3 : Forall (@NoDup path) (ps_seen P st3)) by (eapply seen_ext_nodup; [apply seen_ext_loc_op|exact HN]).
+      assert (N2 : Forall (@NoDup path) (ps_seen P st2)) by (eapply seen_ext_nodup; [apply seen_ext_in_op|exact N3]).
+      assert (O2 : Oinv st2) by (apply Oinv_broadcast; [apply vrf_add_ops|exact O1|exact N2]).
+      assert (O3 : Oinv st3) by (apply Oinv_in_op; [exact I|exact O2|exact N3]).
+      assert (C3 : clients (ps_loc P st3) = clients (ps_loc P st)).
+      { unfold st3. rewrite clients_in_op by exact I. unfold st2. now rewrite clients_broadcast by apply vrf_add_ops. }
+      assert (LK3 : lookup k (clients (ps_loc P st3)) = None) by (now rewrite C3).
+      assert (UPS3 : ups st3 = upd_nth k (fun _ => true) (ups st)).
+      { unfold st3. rewrite ups_in_op. unfold st2. rewrite ups_broadcast. unfold st1, ups. cbn [with_sess ps_sess].
+        now apply map_upd_nth_comm. }
+      assert (U3 : nth_error (ups st3) k = Some true).
+      { rewrite UPS3. apply nth_error_upd_same with (x := ss_up P s). now apply ups_nth. }
+      destruct (ups_nth_inv st3 k true U3) as [s3 [Hs3 Hu3]].
+      pose proof (o_sess st3 O3 k c s3 Hc Hs3) as OS3. unfold Osess in OS3. rewrite LK3 in OS3.
+      destruct OS3 as [E|[Eo Eh]]; [congruence|].
+      split; [now apply (Oinv_register st3 k c s3)|].
+      intros HReg j Hj. rewrite (clients_register st3 k (sc_opts P c) O3), C3, LocRIBClientsProofs.lookup_put.
+      destruct (Nat.eqb_spec k j) as [->|NE]; [discriminate|].
+      apply HReg. unfold ups in Hj. rewrite ups_loc_op in Hj. fold (ups st3) in Hj. rewrite UPS3 in Hj.
+      rewrite nth_error_upd_other in Hj by congruence. exact Hj.
+    - (* EDown *)
+      destruct (nth_error cfgs k) as [c|] eqn:Hc; [|now split].
+      destruct (negb (is_up P st k)); [now split|].
+      set (st1 := vrf_broadcast P apply sel tagf cfgs (others_up P cfgs st k ++ [k]) (vrf_del P c) st) in *.
+      set (st2 := in_op k st1 (AdjRIBIn.Unregister 0%N)) in *.
+      assert (N2 : Forall (@NoDup path) (ps_seen P st2)).
+      { eapply seen_ext_nodup; [apply seen_ext_loc_op|]. exact HN. }
+      assert (N1 : Forall (@NoDup path) (ps_seen P st1)) by (eapply seen_ext_nodup; [apply seen_ext_in_op|exact N2]).
+      assert (O1 : Oinv st1) by (apply Oinv_broadcast; [apply vrf_del_ops|exact HI|exact N1]).
+      assert (O2 : Oinv st2) by (apply Oinv_in_op; [exact I|exact O1|exact N2]).
+      split; [now apply Oinv_unregister_down|].
+      intros HReg j Hj. cbn [with_sess ps_loc].
+      assert (C2 : clients (ps_loc P (loc_op st2 (OUnregister k))) = del k (clients (ps_loc P st))).
+      { change (clients (ps_loc P (loc_op st2 (OUnregister k)))) with (del k (clients (ps_loc P st2))).
+        unfold st2. rewrite clients_in_op by exact I. unfold st1. now rewrite clients_broadcast by apply vrf_del_ops. }
+      rewrite C2, LocRIBClientsProofs.lookup_del.
+      unfold ups in Hj. cbn [with_sess ps_sess] in Hj.
+      rewrite (map_upd_nth_comm _ _ (ss_up P) (fun s0 => set_up P s0 false) (fun _ => false)) in Hj by reflexivity.
+      destruct (Nat.eqb_spec k j) as [->|NE].
+      + exfalso. rewrite ups_loc_op in Hj.
+        destruct (nth_error (map (ss_up P) (ps_sess P st2)) j) as [b|] eqn:Eb.
+        * rewrite (nth_error_upd_same _ j _ _ b Eb) in Hj. discriminate.
+        * rewrite upd_nth_none in Hj by assumption. congruence.
+      + apply HReg. rewrite nth_error_upd_other in Hj by congruence. rewrite ups_loc_op in Hj.
+        fold (ups st2) in Hj. unfold st2 in Hj. rewrite ups_in_op in Hj. unfold st1 in Hj. now rewrite ups_broadcast in Hj.
+    - destruct (is_up P st k); [|now split]. split; [apply Oinv_in_op; [exact I|exact HI|exact HN]|].
+      intros HReg j Hj. rewrite clients_in_op by exact I. apply HReg. now rewrite ups_in_op in Hj.
+    - destruct (is_up P st k); [|now split]. split; [apply Oinv_in_op; [exact I|exact HI|exact HN]|].
+      intros HReg j Hj. rewrite clients_in_op by exact I. apply HReg. now rewrite ups_in_op in Hj.
+    - split; [now apply Oinv_us_event|]. intros HReg j Hj. rewrite ups_us_event in Hj.
+      unfold us_event. destruct (is_up P st k); now apply HReg.
+    - split; [now apply Oinv_us_event|]. intros HReg j Hj. rewrite ups_us_event in Hj.
+      unfold us_event. destruct (is_up P st k); now apply HReg.
+  Qed.
+
+  Lemma seen_ext_step : forall st ev, seen_ext st (pstep st ev).
+  Proof.
+    intros st ev. destruct ev as [k|k|k p q|k p i|k key|k]; cbn [Pipeline.step].
+    - destruct (nth_error cfgs k) as [c|]; [|apply seen_ext_refl]. destruct (is_up P st k); [apply seen_ext_refl|].
+      eapply seen_ext_trans; [|apply seen_ext_loc_op]. eapply seen_ext_trans; [|apply seen_ext_in_op].
+      eapply seen_ext_trans; [|apply seen_ext_broadcast]. exists []. cbn [with_sess ps_seen]. now rewrite app_nil_r.
+    - destruct (nth_error cfgs k) as [c|]; [|apply seen_ext_refl]. destruct (negb (is_up P st k)); [apply seen_ext_refl|].
+      eapply seen_ext_trans; [|exists []; cbn [with_sess ps_seen]; now rewrite app_nil_r].
+      eapply seen_ext_trans; [|apply seen_ext_loc_op]. eapply seen_ext_trans; [|apply seen_ext_in_op]. apply seen_ext_broadcast.
+    - destruct (is_up P st k); [apply seen_ext_in_op|apply seen_ext_refl].
+    - destruct (is_up P st k); [apply seen_ext_in_op|apply seen_ext_refl].
+    - unfold us_event. destruct (is_up P st k); [|apply seen_ext_refl]. exists []. cbn [with_sess ps_seen]. now rewrite app_nil_r.
+    - unfold us_event. destruct (is_up P st k); [|apply seen_ext_refl]. exists []. cbn [with_sess ps_seen]. now rewrite app_nil_r.
+  Qed.
+
+  Lemma Oinv_init : Oinv (Pipeline.init P cfgs).
+  Proof.
+    constructor; unfold Pipeline.init; cbn [ps_sess ps_loc ps_seen].
+    - apply map_length.
+    - exists []. apply (LocRIBClientsProofs.init_inv path).
+    - intros p. now left.
+    - intros j c s Hc Hs. unfold Osess. cbn [LocRIBClients.init clients lookup]. left.
+      rewrite nth_error_map in Hs. destruct (nth_error cfgs j); [|discriminate]. inversion Hs. reflexivity.
+  Qed.
+
+  Lemma Reg_init : Reg (Pipeline.init P cfgs).
+  Proof.
+    intros j Hj. unfold ups, Pipeline.init in Hj. cbn [ps_sess] in Hj. rewrite map_map in Hj.
+    rewrite nth_error_map in Hj. destruct (nth_error cfgs j); discriminate.
+  Qed.
+
+  Lemma Oinv_run : forall evs, locrib_paths_distinct P (prun evs) -> Oinv (prun evs) /\ Reg (prun evs).
+  Proof.
+    intros evs. unfold Pipeline.run, locrib_paths_distinct.
+    assert (G : forall l st, Oinv st -> Reg st -> Forall (@NoDup path) (ps_seen P (fold_left pstep l st)) ->
+                             Oinv (fold_left pstep l st) /\ Reg (fold_left pstep l st)).
+    { induction l as [|e l IH]; intros st HI HR HN; cbn [fold_left] in *; [now split|].
+      assert (HN1 : Forall (@NoDup path) (ps_seen P (pstep st e))).
+      { eapply seen_ext_nodup; [|exact HN].
+        clear. generalize (pstep st e). induction l as [|e' l IH]; intros st'; cbn [fold_left]; [apply seen_ext_refl|].
+        eapply seen_ext_trans; [apply seen_ext_step|apply IH]. }
+      destruct (Oinv_step st e HI HN1) as [HI' HR']. apply IH; [exact HI'|now apply HR'|exact HN]. }
+    apply G; [apply Oinv_init|apply Reg_init].
+  Qed.
+
+  (* C04 + C08 (+ C02 through sel), composed: inside the guards of C08 on what the Loc-RIB let the session see, the
+     Adj-RIB-Out of a session that is up is, per prefix, the export view of the first 1/N selected candidates *)
+  Theorem ribout_is_export_of_selection : forall evs j c s,
+    locrib_paths_distinct P (prun evs) ->
+    nth_error cfgs j = Some c -> nth_error (ps_sess P (prun evs)) j = Some s -> ss_up P s = true ->
+    ExportViewSpec.guards (apply (sc_exp P c)) (sc_sess P c) (ss_hist P s) ->
+    AdjRIBOut.errs (ss_out P s) = 0%N ->
+    lookup j (clients (ps_loc P (prun evs))) = Some (sc_opts P c) /\
+    forall p : N,
+      Permutation (map (ExportViewSpec.norm (sc_sess P c)) (AdjRIBOut.tbl_get p (AdjRIBOut.tbl (ss_out P s))))
+                  (map (ExportViewSpec.norm (sc_sess P c))
+                       (ExportViewSpec.export_view (apply (sc_exp P c)) (sc_sess P c) p
+                          (visible (sc_opts P c) (ps_loc P (prun evs)) (lpfx p)))).
+  Proof.
+    intros evs j c s HD Hc Hs Hu HG HE.
+    destruct (Oinv_run evs HD) as [HI HReg].
+    pose proof (o_sess _ HI j c s Hc Hs) as OS. unfold Osess in OS.
+    assert (HL : lookup j (clients (ps_loc P (prun evs))) <> None).
+    { apply HReg. rewrite <- Hu. now apply ups_nth. }
+    destruct (lookup j (clients (ps_loc P (prun evs)))) as [o|] eqn:EL; [|congruence].
+    destruct OS as [-> [_ [Hout Hview]]]. split; [reflexivity|]. intros p.
+    unfold feedof in *. rewrite Hout in HE |- *.
+    pose proof (ExportViewC.ribout_is_export_view_partial P apply (sc_sess P c) (sc_exp P c) (ss_hist P s) HG HE p) as HP.
+    rewrite <- (N2Nat.id p) in HP at 3. rewrite Hview in HP. unfold lpfx. exact HP.
+  Qed.
 End Out.
